@@ -6,11 +6,13 @@ NOT_APPLICABLE = {}
 def register(reg):
     reg("C01", "ENUM", "exploration",
         "bounded exhaustive enumeration of pairs/triples over order-complete alphabets",
-        "Every ordered pair and triple of signed-cost vectors of length 1..4 (thorough ..6) over value alphabets that "
-        "realise every weak order per coordinate, crossed with all marker pairs, for the Pareto comparator and seven "
-        "epsilon lists, compared with dominance by definition and the algebraic laws. The scan is a 4-state automaton "
-        "over <,=,> so length<=4 sequences traverse every transition: exhaustive for the behaviour, not a sample.",
-        "Markers restricted to the values artap writes (False/True); NaN and mixed lengths outside the statement.",
+        "Every ordered pair and triple of signed-cost vectors of length 1..6 over value alphabets that realise every weak "
+        "order per coordinate (incl. the hash-colliding -1.0/-2.0, adjacent floats and 1e-12 neighbours), long vectors "
+        "m=7..12, crossed with all marker pairs, for the Pareto comparator and seven epsilon lists, compared with dominance "
+        "by definition and the algebraic laws; every verdict is asked twice on one comparator object (history independence); "
+        "over numeric markers of both signs only the stated laws are checked. The scan is a 4-state automaton over <,=,> so "
+        "short sequences traverse every transition: exhaustive for the behaviour, not a sample.",
+        "Reference verdicts only for the markers artap writes (False/True); NaN and mixed lengths outside the statement.",
         "DESIGN.md section 5 C01")
 
     reg("C02", "ENUM", "exploration",
